@@ -362,7 +362,7 @@ class World:
     """A client wired through a recording seam to a fresh reference agent."""
 
     def __init__(self, level, db, wrap=None, community="public", agent_kwargs=None,
-                 client_kwargs=None, cred_kwargs=None, clock=None, extra_users=(), via=None):
+                 client_kwargs=None, cred_kwargs=None, clock=None, extra_users=(), via=None, creds=None):
         """via: (how, initial level) - the client is created with OTHER credentials and
         reaches the intended ones through configure() (how == "configure")."""
         cred_kwargs = dict(cred_kwargs or {})
@@ -376,7 +376,9 @@ class World:
             import gc
 
             gc.collect()
-        self.creds = credentials_for(level, community=community, **cred_kwargs)
+        # creds: a credentials OBJECT the caller already has (shared by the clients of
+        # several devices); it must correspond to level / cred_kwargs
+        self.creds = creds if creds is not None else credentials_for(level, community=community, **cred_kwargs)
         users = []
         u = agent_user_for(level, **cred_kwargs)
         if u is not None:
